@@ -8,6 +8,7 @@
     code by the correspondence of harness/props/C07.py (evaluated inside Coq). *)
 From Coq Require Import List Bool Arith Reals.
 From CB Require Import Base.Hex Base.Vec3 Model.C07_EdgeList Model.C07_Dir Proofs.C07_EdgeList Proofs.C07_Dir.
+From CB Require Import Model.C07_Series Proofs.C07_Series.
 From CB Require Import Gen.C07.Tables.
 Import ListNotations.
 Open Scope nat_scope.
@@ -248,6 +249,94 @@ Proof.
   intros c u v a r ch sh. exact (bulge_of_arc c u v a r ch sh).
 Qed.
 
+(** ** side edges made by constructors (Operation.from_series, Revolve) and moved with the whole operation *)
+(** the points from_series lists on side i are the corners i of the intermediate faces, one per face, in the
+    order of the series; a series given backwards lists them backwards; the kind follows the number of faces *)
+Definition C07_series_order_stmt : Prop :=
+  forall (pt : Type) (faces : list (list pt)) (i : nat),
+    (has_corner i faces ->
+       length (series_points faces i) = length faces - 2
+       /\ (forall j, j < length faces - 2 ->
+             nth_error (series_points faces i) j =
+             match nth_error faces (S j) with Some f => nth_error f i | None => None end)
+       /\ series_kind faces i = match length faces with 0 | 1 => SError | 2 => SLine | 3 => SArc | _ => SSpline end)
+    /\ series_points (rev faces) i = rev (series_points faces i).
+
+(** an operation built from a moved series is the moved operation; moving commutes with invert *)
+Definition C07_series_moved_stmt : Prop :=
+  forall (pt qt : Type) (g : pt -> qt) (faces : list (list pt)),
+    (forall i, series_points (map (map g) faces) i = map g (series_points faces i))
+    /\ from_series (map (map g) faces) = option_map (move g) (from_series faces)
+    /\ (forall o : oper pt, invert (move g o) = move g (invert o)).
+
+(** invert twice gives the side-edge data back; after one invert the slot i (written from corner i to corner
+    i + 4, the public slot 8 + i) describes the same curve from its other end *)
+Definition C07_invert_side_edges_stmt : Prop :=
+  forall (pt : Type) (o : oper pt),
+    invert (invert o) = o
+    /\ (forall i, i < 4 -> side_dir i = slot_dir (8 + i))
+    /\ (length (bottom o) = 4 -> length (top o) = 4 -> forall i, i < 4 ->
+          side_curve (invert o) i = option_map (@rev pt) (side_curve o i)).
+
+(** in space: the inverted operation's side edge is the reversed point sequence and has the same length *)
+Definition C07_invert_same_length_stmt : Prop :=
+  forall (o : oper vec) (i : nat) (c : list vec),
+    length (bottom o) = 4 -> length (top o) = 4 -> i < 4 -> side_curve o i = Some c ->
+    exists c', side_curve (invert o) i = Some c' /\ c' = rev c /\ plen c' = plen c.
+
+(** a call made once per slot (ElementBase transformations over parts, Operation.invert over side_edges)
+    reaches every edge-data object as often as slots refer to it; it is a call made once per object exactly
+    when the slots refer to pairwise distinct objects *)
+Definition C07_whole_operation_once_stmt : Prop :=
+  (forall (D : Type) (f : D -> D) (slots : list nat) (h : list D) (k : nat),
+     nth_error (apply_to_parts f slots h) k =
+     option_map (Nat.iter (count_occ Nat.eq_dec slots k) f) (nth_error h k))
+  /\ (forall (D : Type) (f : D -> D) (slots : list nat) (h : list D),
+        NoDup slots -> apply_to_parts f slots h = apply_once_per_edge f slots h)
+  /\ (forall slots : list nat,
+        NoDup slots <->
+        (forall (f : nat -> nat) (h : list nat), apply_to_parts f slots h = apply_once_per_edge f slots h)).
+
+(** four slots on one Angle object: reverse() through the slots leaves the angle, once per object negates it *)
+Definition C07_shared_slots_refuted_stmt : Prop :=
+  exists (slots : list nat) (h : list (edata nat)),
+    ~ NoDup slots /\ view slots (apply_to_parts reverse slots h) <> view slots (apply_once_per_edge reverse slots h).
+
+Theorem C07_series_order : C07_series_order_stmt.
+Proof.
+  intros pt faces i. split; [|exact (series_points_rev faces i)].
+  intro H. split; [exact (series_points_length faces i H)|].
+  split; [intros j Hj; exact (series_points_nth faces i j H Hj) | exact (series_kind_spec faces i H)].
+Qed.
+
+Theorem C07_series_moved : C07_series_moved_stmt.
+Proof.
+  intros pt qt g faces. split; [intro i; exact (series_points_map g faces i)|].
+  split; [exact (from_series_move g faces) | exact (invert_move g)].
+Qed.
+
+Theorem C07_invert_side_edges : C07_invert_side_edges_stmt.
+Proof.
+  intros pt o. split; [exact (invert_involutive o)|]. split; [exact side_dir_is_slot|].
+  intros Lb Lt i Hi. exact (invert_side_curve o i Lb Lt Hi).
+Qed.
+
+Theorem C07_invert_same_length : C07_invert_same_length_stmt.
+Proof. exact invert_same_length. Qed.
+
+Theorem C07_whole_operation_once : C07_whole_operation_once_stmt.
+Proof.
+  split; [intros D f slots h k; exact (apply_to_parts_counts f slots h k)|].
+  split; [intros D f slots h; exact (distinct_slots_once f slots h) | exact once_iff_distinct].
+Qed.
+
+Theorem C07_shared_slots_refuted : C07_shared_slots_refuted_stmt.
+Proof.
+  exists [0; 0; 0; 0], [DAngle 5]. split.
+  - intro H. inversion H as [|x l N _]. apply N. left. reflexivity.
+  - vm_compute. discriminate.
+Qed.
+
 Print Assumptions C07_direction.
 Print Assumptions C07_on_block_edge.
 Print Assumptions C07_face_ops_keep_direction.
@@ -264,3 +353,9 @@ Print Assumptions C07_invalid_ignored.
 Print Assumptions C07_valid_filter.
 Print Assumptions C07_directed_length.
 Print Assumptions C07_sense.
+Print Assumptions C07_series_order.
+Print Assumptions C07_series_moved.
+Print Assumptions C07_invert_side_edges.
+Print Assumptions C07_invert_same_length.
+Print Assumptions C07_whole_operation_once.
+Print Assumptions C07_shared_slots_refuted.
